@@ -46,7 +46,7 @@ impl rustc_driver::Callbacks for Cb {
         let _g1 = ty::print::CrateNamePrefixGuard::new();
         let _g2 = ty::print::NoVisibleGuard::new();
         let _g3 = ty::print::NoTrimmedGuard::new();
-        let d = Dumper { tcx };
+        let d = Dumper { tcx, const_args: Default::default() };
         let j = d.dump_crate(&krate);
         let mut s = String::new();
         j.write(&mut s);
@@ -67,6 +67,8 @@ fn main() {
 
 struct Dumper<'tcx> {
     tcx: TyCtxt<'tcx>,
+    /// integer const-generic arguments seen at call sites (instantiation values for generic consts)
+    const_args: std::cell::RefCell<std::collections::BTreeSet<(String, u64)>>,
 }
 
 fn obj() -> J {
@@ -268,6 +270,18 @@ impl<'tcx> Dumper<'tcx> {
         if let ty::FnDef(did, gargs) = cty.kind() {
             o.set("fn", J::Str(self.path(*did)));
             let ga: Vec<J> = gargs.iter().map(|a| J::Str(format!("{}", a))).collect();
+            for a in gargs.iter() {
+                if let Some(c) = a.as_const() {
+                    if let Some(v) = c.try_to_target_usize(self.tcx) {
+                        if v <= 64 {
+                            // keyed by the module of the callee: a generic const is instantiated only
+                            // at values its own module's functions are instantiated with
+                            let m = self.tcx.parent_module_from_def_id_pub(*did);
+                            self.const_args.borrow_mut().insert((m, v));
+                        }
+                    }
+                }
+            }
             if !ga.is_empty() {
                 o.set("gargs", J::Arr(ga));
             }
@@ -780,6 +794,42 @@ impl<'tcx> Dumper<'tcx> {
         }
         if generic || t.has_non_region_param_pub() {
             o.set("generic", J::Bool(true));
+            // items generic over exactly one `const N: usize` (possibly from the enclosing impl):
+            // evaluate at the small instantiation values requested through ZFACTS_CONST_INSTS
+            let gens = tcx.generics_of(did);
+            let mut params = Vec::new();
+            let mut g = Some(gens);
+            while let Some(gg) = g {
+                for p in gg.own_params.iter() {
+                    params.push(p.kind.clone());
+                }
+                g = gg.parent.map(|p| tcx.generics_of(p));
+            }
+            let only_one_const = params.len() == 1 && matches!(params[0], ty::GenericParamDefKind::Const { .. });
+            if only_one_const {
+                let mymod = self.tcx.parent_module_from_def_id_pub(did);
+                let vals: Vec<u64> = self.const_args.borrow().iter().filter(|(m, _)| *m == mymod).map(|(_, v)| *v).take(8).collect();
+                let mut insts = Vec::new();
+                for v in vals {
+                    let c = ty::Const::from_target_usize(tcx, v);
+                    let args = tcx.mk_args(&[ty::GenericArg::from(c)]);
+                    let instance = ty::Instance::new_raw(did, args);
+                    let cid = mir::interpret::GlobalId { instance, promoted: None };
+                    let env = ty::TypingEnv::fully_monomorphized();
+                    if let Ok(val) = tcx.const_eval_global_id(env, cid, rustc_span::DUMMY_SP) {
+                        let ity = tcx.type_of(did).instantiate(tcx, args).skip_norm_wip();
+                        let ity = tcx.normalize_erasing_regions(env, ty::Unnormalized::new_wip(ity));
+                        let mut io = obj();
+                        io.set("n", J::Int(v as i128));
+                        self.scalar_of_constvalue(val, ity, &mut io);
+                        io.set("shape", self.shape(ity, 0));
+                        insts.push(io);
+                    }
+                }
+                if !insts.is_empty() {
+                    o.set("insts", J::Arr(insts));
+                }
+            }
             return Some(o);
         }
         match tcx.const_eval_poly(did) {
@@ -959,6 +1009,26 @@ fn hex(b: &[u8]) -> String {
         let _ = write!(s, "{:02x}", x);
     }
     s
+}
+
+trait ParentModPub {
+    fn parent_module_from_def_id_pub(self, did: DefId) -> String;
+}
+impl<'tcx> ParentModPub for TyCtxt<'tcx> {
+    fn parent_module_from_def_id_pub(self, did: DefId) -> String {
+        let mut cur = did;
+        loop {
+            match self.opt_parent(cur) {
+                Some(p) => {
+                    if matches!(self.def_kind(p), DefKind::Mod) {
+                        return self.def_path_str(p);
+                    }
+                    cur = p;
+                }
+                None => return String::new(),
+            }
+        }
+    }
 }
 
 trait HasParamPub {
